@@ -324,6 +324,32 @@ def handled(rng, tier):
                               ('identity_like', lambda: pp.identity_like(X, dtype=d), pp.SE3_type, 7), ('randn_like', lambda: pp.randn_like(X), pp.SE3_type, 7)):
         r = ctor(); evals += 1
         if r.ltype is not tp or r.shape[-1] != dim or r.dtype != d: fails.append(dict(clause='constructor_type', signature=nm))
+    # lview / lshape for every ltype (groups AND algebras, whose item width differs from the embedding width): the view has the requested
+    # lshape, the same ltype, the item width of the type, and holds the same items in row-major order
+    for gname in ('SO3', 'SE3', 'RxSO3', 'Sim3', 'so3', 'se3', 'rxso3', 'sim3'):
+        for src, args in (((2, 2), (-1,)), ((4,), (2, 2)), ((2, 3), (3, 2)), ((7, 8), (-1,)), ((0, 2), (0,)), ((), (1,)), ((2, 3, 2), (4, -1))):
+            Xl = getattr(pp, 'randn_' + gname)(*src, dtype=d)
+            try:
+                V = Xl.lview(*args); evals += 1
+            except Exception as e:
+                fails.append(dict(clause='lview_raises', signature=f'{gname} {src}->{args}', error=f'{type(e).__name__}: {e}'[:120])); continue
+            ref = Xl.tensor().reshape(*args, Xl.shape[-1])
+            if getattr(V, 'ltype', None) is not Xl.ltype or tuple(V.shape) != tuple(ref.shape) or not torch.equal(V.tensor(), ref) or tuple(V.lshape) != tuple(ref.shape[:-1]):
+                fails.append(dict(clause='lview_is_the_view_with_the_requested_lshape', signature=f'{gname}', source=list(src), args=list(args), got=list(V.shape), want=list(ref.shape)))
+    # documented DEVICE of results: probed on the always-available `meta` device (no data, shapes / dtypes / devices only) - a constant created on the
+    # default device inside an accessor shows here on a CPU-only machine; ops that do not run on meta at all are skipped, not judged
+    for gname in ('SO3', 'SE3', 'RxSO3', 'Sim3', 'so3', 'se3', 'rxso3', 'sim3'):
+        for lsh in ((), (3,), (2, 3)):
+            Xm = getattr(pp, 'randn_' + gname)(*lsh, dtype=d).to('meta')
+            for oname, f in (('scale', lambda z: z.scale()), ('rotation', lambda z: z.rotation()), ('translation', lambda z: z.translation()), ('Inv', lambda z: z.Inv()),
+                             ('clone', lambda z: z.clone()), ('lview', lambda z: z.lview(-1))):
+                try:
+                    r = f(Xm)
+                except Exception:
+                    continue
+                evals += 1
+                if getattr(r, 'device', Xm.device).type != 'meta' or r.dtype != d:
+                    fails.append(dict(clause='result_on_the_device_of_its_input', signature=f'{gname}.{oname}', lshape=list(lsh), got=str(getattr(r, 'device', None))))
     # documented dtype of the *_like / identity / randn constructors: an explicit dtype wins over the documented default
     for src_dt, want in ((torch.float64, torch.float32), (torch.float32, torch.float64)):
         for gname in ('SO3', 'SE3', 'RxSO3', 'Sim3', 'so3', 'se3', 'rxso3', 'sim3'):
